@@ -9,7 +9,10 @@ Fws == { FwCCTP(0, "MINT_A", "NONE"), FwCCTP(1, "MINT_B", "CALLER_A"), FwCCTP(0,
          FwHYP("T1", 1, "R_A"), FwHYP("T1", 3, "R_A"), FwHYP("T2", 2, "R_B"),
          FwINT("U"), FwINT("ORB"), FwINT("ORB_UPPER"), FwINT("DUST"),
          \* a paying Hyperlane hook (interchain gas paymaster: 3 ustake, max fee 5 ustake) - see KnownDeviationIGP
-         [FwHYP("T1", 1, "R_A") EXCEPT !.hook = "H_IGP", !.gas = 3, !.maxfee = 5, !.mfd = "ustake"] }
+         [FwHYP("T1", 1, "R_A") EXCEPT !.hook = "H_IGP", !.gas = 3, !.maxfee = 5, !.mfd = "ustake"],
+         \* a max fee in the TRANSFERRED denomination with a hook that charges nothing: an upper bound only -
+         \* the whole post-action coin is still handed to the route
+         [FwHYP("T1", 1, "R_A") EXCEPT !.maxfee = 5, !.mfd = "uusdc"], [FwHYP("T2", 2, "R_B") EXCEPT !.maxfee = 5, !.mfd = "ustake"] }
 ActLists == { <<>>, <<FeeAct(<<Bps(100, "F1")>>)>>, <<FeeAct(<<Fix(3, "F1"), Bps(5000, "F2")>>)>>,
               <<FeeAct(<<Bps(100, "ORB")>>)>> }
 
